@@ -621,4 +621,333 @@ Qed.
 
 
 End Forms.
+
+(* ---------------------------------------------------------------- the top level (TcTop.v) *)
+Definition okfun (f : fundef) : Prop := okot (fn_type f) /\ oknames (fn_params f) /\ okform (fn_body f).
+Definition okproc (p : procdef) : Prop := okot (pr_type p) /\ okform (pr_body p).
+Definition okprog (p : program) : Prop :=
+  okD (p_types p) /\ Forall okfun (p_funs p) /\ Forall okproc (p_procs p) /\ oknames (p_assumed p).
+
+Lemma map_ident_rn l : map ident (map rN l) = map (rc r) (map ident l).
+Proof. rewrite !map_map. reflexivity. Qed.
+Lemma all_names_unique_rn l : all_names_unique (map rN l) = all_names_unique l.
+Proof. unfold all_names_unique. now rewrite map_ident_rn, (has_dup_inj _ Hc). Qed.
+
+Lemma add_missing_opt_sim D t : add_missing_opt (rD D) (rO t) = tmap rO (add_missing_opt D t).
+Proof.
+  destruct t as [t|]; cbn [rn_osty option_map add_missing_opt]; [|reflexivity].
+  rewrite (add_missing_rn r Ht), lift_omap. destruct (lift (add_missing D t)); reflexivity.
+Qed.
+Lemma ok_add_missing_opt D t t' : okot t -> add_missing_opt D t = TOk t' -> okot t'.
+Proof.
+  destruct t as [t|]; cbn [add_missing_opt]; intros H E; [|inversion E; exact I].
+  apply tbind_ok in E. destruct E as (a & E & E'). inversion E'; subst. eapply ok_add_missing; eauto.
+Qed.
+Lemma add_missing_names_sim D ns : add_missing_names (rD D) (map rN ns) = tmap (map rN) (add_missing_names D ns).
+Proof.
+  induction ns as [|n ns IH]; cbn [map add_missing_names]; [reflexivity|].
+  change (nty (rN n)) with (rO (nty n)).
+  eapply sim_bind; [apply add_missing_opt_sim | intros t _].
+  eapply sim_bind; [apply IH | intros ns' _]. reflexivity.
+Qed.
+Lemma ok_add_missing_names D ns ns' : oknames ns -> add_missing_names D ns = TOk ns' -> oknames ns'.
+Proof.
+  revert ns'. induction ns as [|n ns IH]; cbn [add_missing_names]; intros ns' H E; [inversion E; constructor|].
+  inversion H as [|? ? H1 H2]; subst.
+  apply tbind_ok in E. destruct E as (t & Et & E). apply tbind_ok in E. destruct E as (l & El & E). inversion E; subst.
+  constructor; [|apply IH; auto]. cbn [set_nty nty]. eapply ok_add_missing_opt; eauto.
+Qed.
+Lemma add_missing_names_shape D ns ns' : add_missing_names D ns = TOk ns' -> map ident ns' = map ident ns.
+Proof.
+  revert ns'. induction ns as [|n ns IH]; cbn [add_missing_names]; intros ns' E; [inversion E; reflexivity|].
+  apply tbind_ok in E. destruct E as (t & Et & E). apply tbind_ok in E. destruct E as (l & El & E). inversion E; subst.
+  cbn [map]. f_equal. apply IH, El.
+Qed.
+Lemma types_of_rn ns : types_of (map rN ns) = map rs (types_of ns).
+Proof.
+  unfold types_of. induction ns as [|n ns IH]; cbn [map flat_map]; [reflexivity|].
+  change (nty (rN n)) with (rO (nty n)). destruct (nty n); cbn [rn_osty option_map app map]; now rewrite IH.
+Qed.
+
+Definition ot_list (t : option sty) : list sty := match t with Some t => [t] | None => [] end.
+Lemma ot_list_rn t : ot_list (rO t) = map rs (ot_list t).
+Proof. destruct t; reflexivity. Qed.
+
+Lemma forallb_hasty_rn ns :
+  forallb (fun p => match nty p with Some _ => true | None => false end) (map rN ns) =
+  forallb (fun p => match nty p with Some _ => true | None => false end) ns.
+Proof. induction ns as [|n ns IH]; cbn [map forallb]; [reflexivity|]. rewrite IH. change (nty (rN n)) with (rO (nty n)). destruct (nty n); reflexivity. Qed.
+
+Lemma prelim_funs_sim D : forall fs seen,
+  prelim_funs (rD D) (map (rn_fundef r) fs) (map (rf r) seen) = tmap (map (rn_fundef r)) (prelim_funs D fs seen).
+Proof.
+  induction fs as [|f fs IH]; intros seen; cbn [map prelim_funs]; [reflexivity|].
+  cbn [rn_fundef fn_name fn_params fn_type fn_body fn_explicit].
+  eapply sim_bind; [apply guard_sim; now rewrite (str_mem_inj _ Hf) | intros [] _].
+  eapply sim_bind; [apply guard_sim; destruct (fn_type f); reflexivity | intros [] _].
+  eapply sim_bind; [apply guard_sim; apply forallb_hasty_rn | intros [] _].
+  eapply sim_bind; [apply guard_sim; apply all_names_unique_rn | intros [] _].
+  eapply sim_bind; [apply add_missing_opt_sim | intros ft _].
+  eapply sim_bind; [apply add_missing_names_sim | intros ps _].
+  eapply sim_bind; [apply guard_sim | intros [] _].
+  { change (match rO ft with Some t => [t] | None => [] end) with (ot_list (rO ft)).
+    rewrite ot_list_rn, types_of_rn, <- map_app. apply (sanity_types_rn r Ht Hl). }
+  eapply sim_bind; [|intros [] _].
+  { replace (map nty (map rN ps)) with (map rO (map nty ps)) by (rewrite !map_map; reflexivity).
+    apply indep_all_sim. reflexivity. }
+  eapply sim_bind; [apply (IH (fn_name f :: seen)) | intros r' _]. reflexivity.
+Qed.
+
+Lemma ok_prelim_funs D : forall fs seen fs', Forall okfun fs -> prelim_funs D fs seen = TOk fs' -> Forall okfun fs'.
+Proof.
+  induction fs as [|f fs IH]; cbn [prelim_funs]; intros seen fs' H E; [inversion E; constructor|].
+  inversion H as [|? ? (H1 & H2 & H3) H4]; subst.
+  repeat (apply tbind_ok in E; destruct E as (? & ? & E)). inversion E; subst.
+  constructor; [|eapply IH; eauto].
+  repeat split; cbn [fn_type fn_params fn_body]; auto.
+  - eapply ok_add_missing_opt; eauto.
+  - eapply ok_add_missing_names; eauto.
+Qed.
+
+(* ---------- processes ---------- *)
+Lemma names_first_only_rn a b : names_first_only (map rN a) (map rN b) = map rN (names_first_only a b).
+Proof.
+  unfold names_first_only. rewrite map_ident_rn. induction a as [|n a IH]; cbn [map filter]; [reflexivity|].
+  change (ident (rN n)) with (rc r (ident n)). rewrite (str_mem_inj _ Hc).
+  destruct (negb (str_mem (ident n) (map ident b))); cbn [map]; now rewrite IH.
+Qed.
+
+Notation rU := (kvmap (rc r) (fun b : bool => b)).
+Definition rn_uu (p : usemap * usemap) : usemap * usemap := (rU (fst p), rU (snd p)).
+Lemma use_free_names_sim : forall fns a p,
+  use_free_names (map rN fns) (rU a) (rU p) = tmap rn_uu (use_free_names fns a p).
+Proof.
+  induction fns as [|fn fns IH]; intros a p; cbn [map use_free_names]; [reflexivity|].
+  change (ident (rN fn)) with (rc r (ident fn)). rewrite !(alookup_inj _ Hc).
+  destruct (alookup (ident fn) a) as [[|]|]; cbn [option_map]; try reflexivity.
+  - rewrite (aset_inj _ Hc (fun b : bool => b)). apply IH.
+  - destruct (alookup (ident fn) p) as [[|]|]; cbn [option_map]; try reflexivity.
+    rewrite (aset_inj _ Hc (fun b : bool => b)). apply IH.
+Qed.
+
+Definition rn_pu (p : list procdef * usemap) : list procdef * usemap := (map (rn_procdef r) (fst p), rU (snd p)).
+Lemma prelim_procs_types_sim D : forall ps a p,
+  prelim_procs_types (rD D) (map (rn_procdef r) ps) (rU a) (rU p) = tmap rn_pu (prelim_procs_types D ps a p).
+Proof.
+  induction ps as [|q ps IH]; intros a p; cbn [map prelim_procs_types]; [reflexivity|].
+  cbn [rn_procdef pr_type pr_providers pr_body].
+  eapply sim_bind; [apply guard_sim; destruct (pr_type q); reflexivity | intros [] _].
+  eapply sim_bind; [apply add_missing_opt_sim | intros pt _].
+  eapply sim_bind; [apply guard_sim | intros [] _].
+  { change (match rO pt with Some t => [t] | None => [] end) with (ot_list (rO pt)).
+    rewrite ot_list_rn. apply (sanity_types_rn r Ht Hl). }
+  eapply sim_bind; [apply guard_sim | intros [] _].
+  { rewrite map_length. destruct pt; cbn [rn_osty option_map]; rewrite ?mode_of_rn; reflexivity. }
+  rewrite (free_names_rn1 r Hc), names_first_only_rn.
+  eapply sim_bind; [apply use_free_names_sim | intros [a' p'] _]. cbn [rn_uu fst snd].
+  eapply sim_bind; [apply IH | intros [r' a''] _]. reflexivity.
+Qed.
+Lemma ok_prelim_procs_types D : forall ps a p ps' a', Forall okproc ps ->
+  prelim_procs_types D ps a p = TOk (ps', a') -> Forall okproc ps'.
+Proof.
+  induction ps as [|q ps IH]; cbn [prelim_procs_types]; intros a p ps' a' H E; [inversion E; constructor|].
+  inversion H as [|? ? (H1 & H2) H4]; subst.
+  tinv E. inversion E; subst.
+  constructor; [|eapply IH; eauto]. split; cbn [pr_type pr_body]; auto. eapply ok_add_missing_opt; eauto.
+Qed.
+
+Lemma providers_unique_rn : forall ps seen,
+  providers_unique (map (rn_procdef r) ps) (map (rc r) seen) = providers_unique ps seen.
+Proof.
+  induction ps as [|q ps IH]; intros seen; cbn [map providers_unique]; [reflexivity|].
+  cbn [rn_procdef pr_providers]. rewrite all_names_unique_rn. f_equal; [f_equal|].
+  - f_equal. induction (pr_providers q) as [|n l IHl]; cbn [map existsb]; [reflexivity|].
+    change (ident (rN n)) with (rc r (ident n)). now rewrite (str_mem_inj _ Hc), IHl.
+  - rewrite map_ident_rn, <- map_app. apply IH.
+Qed.
+
+Lemma allp_rn ps : flat_map (fun p => map ident (pr_providers p)) (map (rn_procdef r) ps) =
+                   map (rc r) (flat_map (fun p => map ident (pr_providers p)) ps).
+Proof.
+  induction ps as [|q ps IH]; cbn [map flat_map]; [reflexivity|].
+  cbn [rn_procdef pr_providers]. now rewrite map_ident_rn, IH, map_app.
+Qed.
+
+Definition rn_pn (p : list procdef * list name) : list procdef * list name := (map (rn_procdef r) (fst p), map rN (snd p)).
+Lemma prelim_procs_sim D ps assumed :
+  prelim_procs (rD D) (map (rn_procdef r) ps) (map rN assumed) = tmap rn_pn (prelim_procs D ps assumed).
+Proof.
+  unfold prelim_procs.
+  eapply sim_bind; [apply guard_sim; apply all_names_unique_rn | intros [] _].
+  eapply sim_bind; [apply guard_sim; apply forallb_hasty_rn | intros [] _].
+  eapply sim_bind; [apply add_missing_names_sim | intros assumed' _].
+  eapply sim_bind; [apply guard_sim; rewrite types_of_rn; apply (sanity_types_rn r Ht Hl) | intros [] _].
+  eapply sim_bind; [apply guard_sim; apply (providers_unique_rn ps []) | intros [] _].
+  rewrite allp_rn.
+  eapply sim_bind; [apply guard_sim | intros [] _].
+  { rewrite map_ident_rn. f_equal. induction (flat_map (fun p => map ident (pr_providers p)) ps) as [|x l IHl]; cbn [map existsb]; [reflexivity|].
+    now rewrite (str_mem_inj _ Hc), IHl. }
+  eapply sim_bind; [|intros [ps' remaining] _].
+  { replace (map (fun n => (ident n, true)) (map rN assumed')) with (rU (map (fun n => (ident n, true)) assumed'))
+      by (unfold kvmap; rewrite !map_map; reflexivity).
+    replace (map (fun x => (x, true)) (map (rc r) (flat_map (fun p => map ident (pr_providers p)) ps)))
+      with (rU (map (fun x => (x, true)) (flat_map (fun p => map ident (pr_providers p)) ps)))
+      by (unfold kvmap; rewrite !map_map; reflexivity).
+    apply prelim_procs_types_sim. }
+  cbn [rn_pu fst snd].
+  eapply sim_bind; [apply guard_sim | intros [] _].
+  { f_equal. unfold kvmap. induction remaining as [|[k v] l IHl]; cbn [map existsb snd]; [reflexivity|]. now rewrite IHl. }
+  reflexivity.
+Qed.
+Lemma ok_prelim_procs D ps assumed ps' assumed' : Forall okproc ps -> oknames assumed ->
+  prelim_procs D ps assumed = TOk (ps', assumed') -> Forall okproc ps' /\ oknames assumed'.
+Proof.
+  unfold prelim_procs. intros Hps Ha E.
+  tinv E. inversion E; subst. split.
+  - eapply ok_prelim_procs_types; eauto.
+  - eapply ok_add_missing_names; eauto.
+Qed.
+
+(* ---------- sigma, contexts, drivers ---------- *)
+Lemma make_sigma_sim D fs : make_sigma (rD D) (map (rn_fundef r) fs) = tmap rSg (make_sigma D fs).
+Proof.
+  induction fs as [|f fs IH]; cbn [map make_sigma]; [reflexivity|].
+  cbn [rn_fundef fn_type fn_name fn_params].
+  eapply sim_bind; [apply unfold_opt_sim; reflexivity | intros t _].
+  eapply sim_bind; [apply IH | intros r' _]. reflexivity.
+Qed.
+Lemma ok_make_sigma D fs Sg : okD D -> Forall okfun fs -> make_sigma D fs = TOk Sg -> oksigma Sg.
+Proof.
+  intros HD. revert Sg. induction fs as [|f fs IH]; cbn [make_sigma]; intros Sg H E; [inversion E; constructor|].
+  inversion H as [|? ? (H1 & H2 & H3) H4]; subst.
+  repeat (apply tbind_ok in E; destruct E as (? & ? & E)). inversion E; subst.
+  constructor; [|apply IH; auto]. split; cbn [fs_type fs_params]; auto. eapply okot_unfold; eauto.
+Qed.
+
+Lemma make_ctx_rn ns : make_ctx (map rN ns) = rC (make_ctx ns).
+Proof.
+  unfold make_ctx. change (@nil (string * option sty)) with (rC []) at 1. generalize (@nil (string * option sty)) as g.
+  induction ns as [|n ns IH]; intros g; cbn [map fold_left]; [reflexivity|].
+  change (ident (rN n)) with (rc r (ident n)). change (nty (rN n)) with (rO (nty n)). rewrite aset_rn. apply IH.
+Qed.
+Lemma ok_make_ctx ns : oknames ns -> okctx (make_ctx ns).
+Proof.
+  unfold make_ctx. assert (H0 : okctx []) by constructor. revert H0. generalize (@nil (string * option sty)) as g.
+  induction ns as [|n ns IH]; intros g Hg H; cbn [fold_left]; [exact Hg|].
+  inversion H; subst. apply IH; auto. apply okctx_aset; auto.
+Qed.
+
+Lemma tc_funs_sim D Sg : okD D -> oksigma Sg -> forall fs, Forall okfun fs ->
+  tc_funs (rD D) (rSg Sg) (map (rn_fundef r) fs) = tmap (map (rn_fundef r)) (tc_funs D Sg fs).
+Proof.
+  intros HD HSg. induction fs as [|f fs IH]; intros H; cbn [map tc_funs]; [reflexivity|].
+  inversion H as [|? ? (H1 & H2 & H3) H4]; subst.
+  cbn [rn_fundef fn_params fn_type fn_body fn_name fn_explicit]. rewrite make_ctx_rn.
+  eapply sim_bind; [|intros b _].
+  { apply (proj1 (tc_form_rn D Sg HD HSg)); auto; [exact I | apply ok_make_ctx; auto]. }
+  eapply sim_bind; [apply IH; auto | intros r' _]. reflexivity.
+Qed.
+
+(* getFreeNameTypes *)
+Notation rV := (kvmap (rc r) rN).
+Lemma available_names_rn ps assumed :
+  available_names (map (rn_procdef r) ps) (map rN assumed) = rV (available_names ps assumed).
+Proof.
+  unfold available_names.
+  assert (E1 : flat_map (fun p => map (fun n => (ident n, set_nty n (pr_type p))) (pr_providers p)) (map (rn_procdef r) ps) =
+               rV (flat_map (fun p => map (fun n => (ident n, set_nty n (pr_type p))) (pr_providers p)) ps)).
+  { unfold kvmap. induction ps as [|q ps IH]; cbn [map flat_map]; [reflexivity|].
+    rewrite IH, map_app. f_equal. cbn [rn_procdef pr_providers pr_type]. rewrite !map_map. reflexivity. }
+  rewrite E1.
+  assert (E2 : forall l m, fold_left (fun m kv => aset (fst kv) (snd kv) m) (rV l) (rV m) =
+                           rV (fold_left (fun m (kv : string * name) => aset (fst kv) (snd kv) m) l m)).
+  { induction l as [|[k v] l IH]; intros m; cbn [kvmap map fold_left fst snd]; [reflexivity|].
+    rewrite (aset_inj _ Hc rN). apply IH. }
+  change (@nil (string * name)) with (rV []) at 1. rewrite E2.
+  generalize (fold_left (fun m (kv : string * name) => aset (fst kv) (snd kv) m)
+     (flat_map (fun p => map (fun n => (ident n, set_nty n (pr_type p))) (pr_providers p)) ps) []) as m.
+  induction assumed as [|a l IH]; intros m; cbn [map fold_left]; [reflexivity|].
+  change (ident (rN a)) with (rc r (ident a)). rewrite (aset_inj _ Hc rN). apply IH.
+Qed.
+
+Lemma free_name_types_rn p ps assumed :
+  free_name_types (rn_procdef r p) (map (rn_procdef r) ps) (map rN assumed) = map rN (free_name_types p ps assumed).
+Proof.
+  unfold free_name_types. rewrite available_names_rn. cbn [rn_procdef pr_body pr_providers].
+  rewrite (free_names_rn1 r Hc), names_first_only_rn.
+  induction (names_first_only (free_names (pr_body p)) (pr_providers p)) as [|n l IH]; cbn [map flat_map]; [reflexivity|].
+  change (ident (rN n)) with (rc r (ident n)). rewrite (alookup_inj _ Hc rN), IH, map_app. f_equal.
+  destruct (alookup (ident n) (available_names ps assumed)); reflexivity.
+Qed.
+
+Definition okvals (m : list (string * name)) : Prop := Forall (fun kv => okot (nty (snd kv))) m.
+Lemma okvals_aremove k m : okvals m -> okvals (aremove k m).
+Proof. induction 1 as [|[k' v] m Hv _ IH]; cbn; [constructor|]. destruct (String.eqb k k'); auto. constructor; auto. Qed.
+Lemma okvals_alookup k m v : okvals m -> alookup k m = Some v -> okot (nty v).
+Proof.
+  induction 1 as [|[k' v'] m Hv _ IH]; cbn; [discriminate|].
+  destruct (String.eqb k k'); [intros E; inversion E; subst; exact Hv | exact IH].
+Qed.
+Lemma ok_available ps assumed : Forall okproc ps -> oknames assumed -> okvals (available_names ps assumed).
+Proof.
+  intros Hps Ha. unfold available_names.
+  assert (H1 : okvals (flat_map (fun p => map (fun n => (ident n, set_nty n (pr_type p))) (pr_providers p)) ps)).
+  { induction Hps as [|q ps (Hq & _) _ IH]; cbn [flat_map]; [constructor|]. apply Forall_app. split; [|exact IH].
+    induction (pr_providers q); cbn [map]; constructor; auto. }
+  assert (H2 : forall l m, okvals l -> okvals m -> okvals (fold_left (fun m (kv : string * name) => aset (fst kv) (snd kv) m) l m)).
+  { induction l as [|[k v] l IH]; intros m Hl0 Hm; cbn [fold_left fst snd]; [exact Hm|].
+    inversion Hl0; subst. apply IH; auto. constructor; [assumption | apply okvals_aremove, Hm]. }
+  specialize (H2 _ [] H1 (Forall_nil _)).
+  revert H2. generalize (fold_left (fun m (kv : string * name) => aset (fst kv) (snd kv) m)
+     (flat_map (fun p => map (fun n => (ident n, set_nty n (pr_type p))) (pr_providers p)) ps) []) as m.
+  induction Ha as [|a l Ha0 _ IH]; intros m Hm; cbn [fold_left]; [exact Hm|].
+  apply IH. constructor; [exact Ha0 | apply okvals_aremove, Hm].
+Qed.
+Lemma ok_free_name_types p ps assumed : Forall okproc ps -> oknames assumed -> oknames (free_name_types p ps assumed).
+Proof.
+  intros Hps Ha. unfold free_name_types. pose proof (ok_available ps assumed Hps Ha) as Hv.
+  induction (names_first_only (free_names (pr_body p)) (pr_providers p)) as [|n l IH]; cbn [flat_map]; [constructor|].
+  apply Forall_app. split; [|exact IH].
+  destruct (alookup (ident n) (available_names ps assumed)) eqn:E; [|constructor].
+  constructor; [|constructor]. eapply okvals_alookup; eauto.
+Qed.
+
+Lemma tc_procs_sim D Sg all assumed : okD D -> oksigma Sg -> Forall okproc all -> oknames assumed ->
+  forall ps, Forall okproc ps ->
+  tc_procs (rD D) (rSg Sg) (map (rn_procdef r) all) (map rN assumed) (map (rn_procdef r) ps) =
+  tmap (map (rn_procdef r)) (tc_procs D Sg all assumed ps).
+Proof.
+  intros HD HSg Hall Ha. induction ps as [|p ps IH]; intros H; cbn [map tc_procs]; [reflexivity|].
+  inversion H as [|? ? (H1 & H2) H4]; subst.
+  rewrite free_name_types_rn, make_ctx_rn. cbn [rn_procdef pr_type pr_body pr_providers].
+  eapply sim_bind; [|intros b _].
+  { apply (proj1 (tc_form_rn D Sg HD HSg)); auto; [exact I | apply ok_make_ctx, ok_free_name_types; auto]. }
+  eapply sim_bind; [apply IH; auto | intros r' _]. reflexivity.
+Qed.
+
+Theorem tc_program_rn p : okprog p -> tc_program (rn_program r p) = tmap (rn_program r) (tc_program p).
+Proof.
+  intros (HD & Hfs & Hps & Ha). unfold tc_program. cbn [rn_program p_types p_funs p_procs p_assumed].
+  rewrite (sanity_typedefs_rn r Ht Hl).
+  eapply (sim_bind (fun b : bool => b)); [symmetry; apply tmap_id | intros okd _].
+  eapply sim_bind; [apply guard_sim; reflexivity | intros [] _].
+  change (@nil string) with (map (rf r) []).
+  eapply sim_bind; [apply prelim_funs_sim | intros fs E1].
+  pose proof (ok_prelim_funs _ _ _ _ Hfs E1) as Hfs'.
+  eapply sim_bind; [apply prelim_procs_sim | intros [ps assumed] E2].
+  destruct (ok_prelim_procs _ _ _ _ _ Hps Ha E2) as [Hps' Ha'].
+  cbn [rn_pn fst snd].
+  eapply sim_bind; [apply make_sigma_sim | intros Sg E3].
+  pose proof (ok_make_sigma _ _ _ HD Hfs' E3) as HSg.
+  eapply sim_bind; [apply tc_funs_sim; auto | intros fs' _].
+  eapply sim_bind; [apply tc_procs_sim; auto | intros ps' _].
+  reflexivity.
+Qed.
+
+Definition rn_verdict (v : verdict) : verdict :=
+  match v with Accept p => Accept (rn_program r p) | other => other end.
+
+Theorem typecheck_rn p : okprog p -> typecheck (rn_program r p) = rn_verdict (typecheck p).
+Proof. intros H. unfold typecheck. rewrite (tc_program_rn p H). destruct (tc_program p); reflexivity. Qed.
+
 End Tc.
